@@ -72,6 +72,23 @@ static std::vector<KnownPredicate> load_known(const std::string& file) {
 
 // oracles that need a second execution of the plan (used by workers, replay and shrink alike)
 static void post_oracles(const Plan& p, const ExecOpts& eo, RunResult& r) {
+  // C09: a report about the space of a returned vector ("scaled_*") is attributed to scaling only if the same history
+  // with scaling switched off does not show the same defect at the same operation
+  if (eo.want("C09") && !p.cfgi("noscale", 0)) {
+    bool any = false; for (auto& v : r.viol) if (v.prop == "C09" && v.oracle.compare(0, 7, "scaled_") == 0) any = true;
+    if (any) {
+      Plan pn = p; pn.cfg["noscale"] = "1";
+      ExecOpts e2 = eo; e2.props.clear(); e2.props.insert("C01"); e2.props.insert("C02");
+      Executor ex2(pn, e2); RunResult r2 = ex2.run();
+      std::vector<Violation> keep;
+      for (auto& v : r.viol) {
+        bool drop = false;
+        if (v.prop == "C09" && v.oracle.compare(0, 7, "scaled_") == 0) for (auto& w : r2.viol) if (w.op_index == v.op_index && w.oracle == v.oracle.substr(7)) drop = true;
+        if (drop) r.counters["c09_same_defect_without_scaling"]++; else keep.push_back(v);
+      }
+      r.viol.swap(keep);
+    }
+  }
   if (p.cfgi("ntasks", 1) > 1 && eo.props.count("C18") + eo.props.count("C17") > 0 && !eo.tsan) {
       // result comparison: every object must observe exactly what it observes when the tasks run one after the other
       Plan ps = p; ps.cfg["serial"] = "1";
